@@ -6,6 +6,7 @@ import ArtapModel.Gen.Equality
 The generated function (an index loop over `range(len(self.vector))` with `IndexError` = `none`) is
 the hand-written `indEq` of `Model/Equality.lean` (property C20), for all inputs.
 -/
+set_option linter.unusedSimpArgs false
 namespace Artap.Tie.Equality
 open Artap.Equality Artap.Gen.Equality
 
